@@ -235,6 +235,23 @@ def _r203(ck, prog, cfg, seen, built):
                 if cond:
                     ck.ok("R20.3", key, "accepted: " + exc)
                     continue
+            if r.get("returned"):
+                # the Vec leaves the function unsorted: the obligation moves to every harness-reachable caller
+                callers = []
+                leaks = []
+                for y in sorted(seen):
+                    g = prog.fns[y]
+                    nc, badl = hashorder.caller_orders_result(prog, g, f)
+                    if nc:
+                        callers.append(g.id)
+                        leaks += [(g, ln) for ln in badl]
+                if callers and not leaks:
+                    ck.ok("R20.3", key, "returned in hash order; every harness-reachable caller sorts it or uses it as a set: %s" % ", ".join(callers))
+                    continue
+                if leaks:
+                    g, ln = leaks[0]
+                    ck.bad("R20.3", key, "%s; returned in hash order and used order-sensitively by %s" % (r["what"], g.id), g.where(ln))
+                    continue
             ck.bad("R20.3", key,
                    "hash-order leak reachable from a simulation harness: %s (%s): the result depends on the process's hash seed, so the same "
                    "seed gives different traces in different processes; reached via %s"
